@@ -70,6 +70,10 @@ CLAIMS = {
             "Decides the table clause: the length-prefix rows of the writer, of the two length functions, of the canonical check and the decoder caps are mutually consistent and each n-byte row ends at 2^(7n-1) (shortest prefix). ALL rows of ALL five tables; not decode(encode(x)) == x.",
             "Trusts rustc's MIR and constant evaluation; u32 truncation of atom lengths in serialized_length_atom is harmless because the heap limit is <= u32::MAX (C13/R13c). Round-trip on trees is not decided.",
             "DESIGN.md 4/C15"),
+    "C23": ("static cost arithmetic: abstract interpretation of CLVM's cost rules on the fixed ChiaLisp program over an abstract tree, constants extracted from source, coefficient-wise inequalities",
+            "Proof by closed forms: lisp(tree) = S + sum_atoms(A + B*len) + sum_pairs P is DERIVED from the program bytes embedded in the repository and the current constants (it reproduces the four CLVM figures printed in docs/sha256tree.md exactly), native(tree) likewise from its constants; B' <= B, A' <= A, P' < P, S'+A' < S+A imply native < lisp for every tree; discharged for both cost models (8 obligations + shape + 4 cross-checks).",
+            "Trusted base: the 80-line cost-rule interpreter in rules/c23.py (which constant is charged for quote/apply/op call/path lookup/cons/listp/if/sha256 - pinned against the code by C02 and C10), constant extraction by the driver, the embedded program bytes.",
+            "DESIGN.md 4/C23"),
     "C27": ("ownership/liveness rule over elaborated MIR: address-exposing casts (PointerExposeProvenance) vs. moves into owners that outlive the loop, with bool-specialised reachability",
             "Decides that every object whose address is used as a map key is kept alive on every path (T8): the necessary condition whose absence corrupted 119/200 random trees before the fix. Not that the produced tree equals the source tree.",
             "Trusts rustc's elaborated MIR (a moved local has no drop) and pyo3's Bound::clone being a strong reference.",
